@@ -16,7 +16,7 @@ for p in "$@"; do
   done
 done
 git -C $W checkout -- .
-for t in py2lean py2lean_loops pyclass2lean pyfunc2lean pyevent2lean pyinit2lean pyinvest2lean pysimple2lean pydisc2lean pyperc2lean pyargs2lean pyfsir2lean pyglue2lean pyhelp2lean pymat2lean pywrap2lean pyglue3lean pypm2lean; do /venv/bin/python /verif/harness/$t.py >/dev/null 2>&1; done
+for t in py2lean py2lean_loops pyclass2lean pyfunc2lean pyevent2lean pyinit2lean pyinvest2lean pysimple2lean pydisc2lean pyperc2lean pyargs2lean pyfsir2lean pyglue2lean pyhelp2lean pymat2lean pywrap2lean pyglue3lean pypm2lean pysi2lean; do /venv/bin/python /verif/harness/$t.py >/dev/null 2>&1; done
 git -C /verif checkout -- evidence 2>/dev/null
 git -C /verif status --short lean/EoNVerif/Gen | head
 echo "== done"
